@@ -85,6 +85,13 @@ Proof.
   - apply csample_attrs.
 Qed.
 
+Lemma cfg_of_default_ok : forall e s, samp_ok (cfg_of_default e s).
+Proof.
+  intros e s. split; cbn [cfg_of_default cf_script cf_samp].
+  - destruct s; try discriminate. reflexivity.
+  - apply csample_attrs.
+Qed.
+
 Section StartOk.
 Variable cf : cfg.
 Hypothesis OK : samp_ok cf.
@@ -206,24 +213,65 @@ Proof.
       * cbn. rewrite andb_false_r. destruct (is_recording (sr_dec r)); reflexivity.
 Qed.
 
+(* ------------------------------------------------------------------ the default generator as an oracle of FRESH ids *)
+(* With the default RandomIdGenerator the ids written in the operations stand for what the generator returns; the
+   assumption on that oracle is that every id is fresh at the moment it is drawn: non-zero and different from the
+   corresponding id of every span in the table.  (With a scripted generator nothing is assumed.) *)
+Definition start_fresh (cf : cfg) (w : world) (o : sop) : Prop :=
+  match o with
+  | SStart _ gsid gtid _ =>
+      cf_enabled cf = true -> cf_defgen cf = true ->
+      fresh_sid_b (tbl_of w) gsid = true /\ fresh_tid_b (tbl_of w) gtid = true
+  | _ => True
+  end.
+
+Fixpoint oracle_fresh (cf : cfg) (w : world) (ops : list (nat * sop)) : Prop :=
+  match ops with
+  | [] => True
+  | (t, o) :: ops' => start_fresh cf w o /\ oracle_fresh cf (fst (sstep cf w t o)) ops'
+  end.
+
+Lemma oracle_fresh_scripted : forall cf ops w, cf_defgen cf = false -> oracle_fresh cf w ops.
+Proof.
+  intros cf ops. induction ops as [|[t o] ops IH]; intros w H; [exact I|]. split; [|apply IH; exact H].
+  destruct o; cbn; auto. intros _ D. congruence.
+Qed.
+
+Lemma spec_fresh_model : forall cf w p pa gsid gtid scr active, compat p pa ->
+  (cf_enabled cf = true -> cf_defgen cf = true -> fresh_sid_b (tbl_of w) gsid = true /\ fresh_tid_b (tbl_of w) gtid = true) ->
+  spec_fresh cf (tbl_of w) p (model_start_obs cf gsid gtid scr active pa) = [].
+Proof.
+  intros cf w p pa gsid gtid scr active C F. unfold spec_fresh.
+  destruct (cf_enabled cf && cf_defgen cf) eqn:ED; [|reflexivity].
+  apply andb_true_iff in ED. destruct (F (proj1 ED) (proj2 ED)) as [FS FT].
+  unfold fresh_sid_b in FS. unfold fresh_tid_b in FT. apply andb_true_iff in FS, FT. destruct FS as [S1 S2]. destruct FT as [T1 T2].
+  unfold model_start_obs. rewrite (spec_parent_resolve p pa active _ _ _ _ _ C). cbn [so_new].
+  set (parent := resolve_parent active pa).
+  assert (Sid : c_sid (b_ctx (new_span (cf_samp cf scr) (cf_random cf) gsid gtid parent)) = gsid) by reflexivity.
+  rewrite Sid, S1, S2. cbn [check app]. unfold opt_parent. destruct (ctx_valid parent) eqn:V; [reflexivity|].
+  destruct (root_without_valid_parent (cf_samp cf scr) (cf_random cf) gsid gtid parent V) as (X1 & _).
+  unfold born_of in X1. rewrite X1, T1, T2. reflexivity.
+Qed.
+
 (* one operation: the checker, run on the model's observation, reports nothing and keeps in step with the table *)
-Lemma spec_op_model : forall cf w t o, samp_ok cf -> rec_local w ->
+Lemma spec_op_model : forall cf w t o, samp_ok cf -> start_fresh cf w o -> rec_local w ->
   spec_op cf (tbl_of w) o (snd (sstep cf w t o)) = (tbl_of (fst (sstep cf w t o)), []) /\ rec_local (fst (sstep cf w t o)).
 Proof.
-  intros cf w t o OK RL. destruct o as [p gsid gtid scr | k | c | | co]; cbn [sstep].
+  intros cf w t o OK FR RL. destruct o as [p gsid gtid scr | k | c | | co]; cbn [sstep].
   - (* StartSpan *)
     unfold do_start. destruct (cf_enabled cf) eqn:En; cbn [negb fst snd spec_op].
     + unfold spec_start. rewrite En.
       pose proof (spec_start_enabled_model cf OK gsid gtid scr p _ (active_ctx w t) (eval_parent_compat w t p)) as S1.
       pose proof (sspan_of_start_model cf p _ gsid gtid scr (active_ctx w t) OK (eval_parent_compat w t p) En) as S2.
-      unfold model_start_obs in S1, S2. cbv zeta in S1, S2. rewrite S1, S2.
+      pose proof (spec_fresh_model cf w p _ gsid gtid scr (active_ctx w t) (eval_parent_compat w t p) FR) as S3.
+      unfold model_start_obs in S1, S2, S3. cbv zeta in S1, S2, S3. rewrite S1, S2, S3.
       split.
       * unfold tbl_of, add_span. cbn [w_spans]. rewrite map_app. reflexivity.
       * unfold rec_local, add_span. cbn [w_spans]. apply Forall_app. split; [exact RL|]. constructor; [|constructor].
         intros _. cbn [sp_ctx]. reflexivity.
     + unfold spec_start. rewrite En. split.
       * unfold tbl_of, add_span. cbn [w_spans]. rewrite map_app.
-        unfold sspan_of_start, spec_start_disabled. rewrite En. cbn [so_new so_rec so_samp so_sid_calls so_tid_calls]. reflexivity.
+        unfold sspan_of_start, spec_start_disabled, spec_fresh. rewrite En. cbn [so_new so_rec so_samp so_sid_calls so_tid_calls andb]. reflexivity.
       * unfold rec_local, add_span. cbn [w_spans]. apply Forall_app. split; [exact RL|]. constructor; [|constructor]. discriminate.
   - (* End *)
     unfold do_end. unfold tbl_of at 1. cbn [spec_op].
@@ -255,13 +303,13 @@ Proof.
   intros. cbn [srun]. destruct (sstep cf w t o) as [w1 out]. cbn [fst snd]. destruct (srun cf w1 ops) as [w2 outs]. reflexivity.
 Qed.
 
-Lemma spec_ops_model : forall cf ops w, samp_ok cf -> rec_local w ->
+Lemma spec_ops_model : forall cf ops w, samp_ok cf -> oracle_fresh cf w ops -> rec_local w ->
   spec_ops cf (tbl_of w) ops (snd (srun cf w ops)) = (tbl_of (fst (srun cf w ops)), []) /\ rec_local (fst (srun cf w ops)).
 Proof.
-  intros cf ops. induction ops as [|[t o] ops IH]; intros w OK RL; [split; [reflexivity | exact RL]|].
-  rewrite srun_cons'. cbn [fst snd spec_ops].
-  destruct (spec_op_model cf w t o OK RL) as [E RL1]. rewrite E.
-  destruct (IH _ OK RL1) as [E2 RL2]. rewrite E2. split; [reflexivity | exact RL2].
+  intros cf ops. induction ops as [|[t o] ops IH]; intros w OK FR RL; [split; [reflexivity | exact RL]|].
+  rewrite srun_cons'. cbn [fst snd spec_ops]. destruct FR as [FR1 FR2].
+  destruct (spec_op_model cf w t o OK FR1 RL) as [E RL1]. rewrite E.
+  destruct (IH _ OK FR2 RL1) as [E2 RL2]. rewrite E2. split; [reflexivity | exact RL2].
 Qed.
 
 (* ------------------------------------------------------------------ the end of the program *)
@@ -304,11 +352,12 @@ Proof.
 Qed.
 
 (* ------------------------------------------------------------------ model_meets_spec *)
-Theorem model_meets_spec_any_sampler : forall cf n ops, samp_ok cf -> spec_case cf ops (run_case cf n ops) = [].
+Theorem model_meets_spec_oracles : forall cf n ops, samp_ok cf -> oracle_fresh cf (world0 n) ops ->
+  spec_case cf ops (run_case cf n ops) = [].
 Proof.
-  intros cf n ops OK. unfold run_case, spec_case.
+  intros cf n ops OK FR. unfold run_case, spec_case.
   assert (RL0 : rec_local (world0 n)) by constructor.
-  destruct (spec_ops_model cf ops (world0 n) OK RL0) as [E RL]. change (tbl_of (world0 n)) with (@nil sspan) in E.
+  destruct (spec_ops_model cf ops (world0 n) OK FR RL0) as [E RL]. change (tbl_of (world0 n)) with (@nil sspan) in E.
   destruct (srun cf (world0 n) ops) as [w out] eqn:R. cbn [fst snd] in E, RL.
   destruct (finish_model (w_spans w) [] w eq_refl RL) as [F C]. cbn [length] in F, C.
   destruct (end_all w (seq 0 (length (w_spans w)))) as [w' ex] eqn:EA. cbn [fst snd] in F, C.
@@ -316,10 +365,33 @@ Proof.
   unfold dump_spans. apply spec_dump_model. exact C.
 Qed.
 
-(* every configuration a case file can describe: built-in samplers (C12), the scripted one, ParentBased around either *)
+(* with a custom id generator nothing is assumed about the ids *)
+Theorem model_meets_spec_any_sampler : forall cf n ops, samp_ok cf -> cf_defgen cf = false ->
+  spec_case cf ops (run_case cf n ops) = [].
+Proof. intros cf n ops OK D. apply model_meets_spec_oracles; [exact OK | apply oracle_fresh_scripted; exact D]. Qed.
+
+(* every configuration a case file can describe with a scripted generator: built-in samplers (C12), the scripted one,
+   ParentBased around either *)
 Theorem model_meets_spec : forall enabled random s n ops,
   spec_case (cfg_of enabled random s) ops (run_case (cfg_of enabled random s) n ops) = [].
-Proof. intros. apply model_meets_spec_any_sampler. apply cfg_of_ok. Qed.
+Proof. intros. apply model_meets_spec_any_sampler; [apply cfg_of_ok | reflexivity]. Qed.
+
+(* ... and with the default RandomIdGenerator, under the assumption that it yields fresh ids *)
+Theorem model_meets_spec_default_generator : forall enabled s n ops,
+  oracle_fresh (cfg_of_default enabled s) (world0 n) ops ->
+  spec_case (cfg_of_default enabled s) ops (run_case (cfg_of_default enabled s) n ops) = [].
+Proof. intros. apply model_meets_spec_oracles; [apply cfg_of_default_ok | assumption]. Qed.
+
+Example oracle_fresh_nonvacuous :
+  let cf := cfg_of_default true CScript in
+  let ops := [(0%nat, SStart PDef (repeat x11 8) (repeat x21 16) (mk_sres RecordAndSample None None)); (0%nat, SCtx (OScope 0));
+              (1%nat, SStart PDef (repeat x12 8) (repeat x22 16) (mk_sres RecordAndSample None None));
+              (0%nat, SStart PDef (repeat x13 8) (repeat x23 16) (mk_sres Drop None None))] in
+  oracle_fresh cf (world0 2) ops /\ cf_defgen cf = true /\
+  (* a repeated or a zero id is NOT accepted by the checker *)
+  spec_case cf [(0%nat, SStart PDef (zeros 8) (repeat x21 16) (mk_sres Drop None None))]
+            (run_case cf 1 [(0%nat, SStart PDef (zeros 8) (repeat x21 16) (mk_sres Drop None None))]) <> [].
+Proof. vm_compute. repeat split; intros; try reflexivity; discriminate. Qed.
 
 (* the theorem is not vacuous: on a program with several spans, parents of all three kinds, several threads *)
 Example model_meets_spec_nonvacuous :
